@@ -165,6 +165,8 @@ class Fn:
         self.skipp = set(cfg.get('skip_params', {}).get(self.name, []))
         self.fuel = cfg.get('fuel', {}).get(self.name, '(Z.to_nat 70)')
         self.is_static = decl.get('storageClass') == 'static'
+        if self.name in cfg.get('static_with_state', []):   # C05: a static function whose object PARAMETER is modelled by the configured fields
+            self.is_static = False
         q = decl['type']['qualType']
         self.is_const = bool(re.search(r'\)\s*const', q))
         self.ret_ct = ctype_of_str(q.split('(')[0].strip()) if not self.ret_override() else self.ret_override()
@@ -196,6 +198,11 @@ class Fn:
                         # function then returns Ok (completed : bool, fields): completed = false <=> the functor threw at its call site and
                         # `fields` are the member values AT THAT MOMENT (what the caller sees when the exception propagates)
                         self.params.append((nm + '_fails', 'bool')); self.env[nm + '_fails'] = ('bool',)
+                    continue
+                rp_ = cfg.get('ref_params', {}).get(self.name, {})   # C05: `const Item& item` that may refer to an ELEMENT of the array field:
+                if nm in rp_:                                         # modelled by the element index <nm>_idx; a read of nm reads the cell at that moment
+                    if not hasattr(self, 'refp'): self.refp = {}
+                    self.refp[nm] = (rp_[nm], nm + '_idx'); self.params.append((nm + '_idx', 'Z')); self.env[nm + '_idx'] = ('u', 64)
                     continue
                 nm = coq_ident(nm)
                 ct = ctype(p)
@@ -301,6 +308,8 @@ class Fn:
             mo, meth, margs = self.memobj(n)
             if meth == 'GetCount' and not margs:
                 return mo['n']
+            if meth == 'GetCapacity' and not margs and mo.get('cap'):   # C05
+                return mo['cap']
             if meth == 'operator[]' and len(margs) == 1:
                 return f"({mo['arr']} {self.e(margs[0])})"
             raise TranslationError('member object method %s used as an expression' % meth)
@@ -329,6 +338,8 @@ class Fn:
                 return a
             if op == '~':
                 return wrap(ct, f'(Z.lnot {a})')
+            if op == '&' and self.ctx.cfg.get('addr_of_identity'):   # C11: `&obj` of an abstract (primitive/opaque) object is that abstract value
+                return a
             if op == '*' and self.ctx.cfg.get('deref'):
                 # C15 ("deref": "<section var : Z -> Z>"): a read through a pointer (e.g. *mContainerVersion) is the abstract memory read
                 return f"({self.ctx.cfg['deref']} {a})"
@@ -373,6 +384,8 @@ class Fn:
     def ref(self, n):
         rd = n['referencedDecl']; nm = rd['name']
         if rd['kind'] in ('ParmVarDecl',):
+            if nm in getattr(self, 'refp', {}):   # C05 ref_params
+                return '(%s %s)' % self.refp[nm]
             nm = coq_ident(nm)
             if nm not in self.env:
                 raise TranslationError(f'parameter {nm} is skipped/untyped but used in {self.name}')
@@ -505,7 +518,12 @@ class Fn:
         if nm in self.ctx.accessors:
             fld, idx = self.accessor_target(nm, args)
             return f'({fld} {idx})'
+        sc_ = self.ctx.cfg.get('scalar_calls', {}).get(nm)   # C08: see assign_to
+        if sc_ is not None and sc_ in self.ctx.fields and sc_ in self.env:
+            return sc_
         prim = self.ctx.cfg.get('primitives', {}).get(nm)
+        if prim is None:   # C20: "Name/argc"  (C09: `is None`, not `or`: the identity primitive is the EMPTY string)
+            prim = self.ctx.cfg.get('primitives', {}).get('%s/%d' % (nm, len(args)))
         if prim is not None:
             obj_ = []
             if nm in self.ctx.cfg.get('object_prims', []) and c.get('kind') == 'MemberExpr':   # C06: "object_prims": the implicit object is the first argument (conversion operators, keyIter->GetCount())
@@ -519,6 +537,8 @@ class Fn:
                 else:
                     argt_.append(self.e(a))
             return '(' + ' '.join([prim] + obj_ + argt_) + ')'
+        if nm in ('move', 'forward') and len(args) == 1 and self.ctx.cfg.get('move_is_identity'):   # C05: std::move(x) on a modelled value
+            return self.e(args[0])
         if nm in ('minmax',):
             a, b = [self.e(x) for x in args]
             return f'(if Z.ltb {b} {a} then ({b}, {a}) else ({a}, {b}))'
@@ -578,8 +598,10 @@ class Fn:
         (Stuck when k > n, the callee's MOMO_CHECK); Clear(..) -> n := 0; Reserve / Shrink -> no effect on (n, arr).
         Returns (objcfg, method, argnodes) or None."""
         cfgm = self.ctx.cfg.get('member_object_ops')
-        if not cfgm:
+        cfgp = self.ctx.cfg.get('param_object_ops')   # C05: the same for an object PARAMETER (e.g. `Array& array` of ArrayShifter)
+        if not cfgm and not cfgp:
             return None
+        cfgm = cfgm or {}; cfgp = cfgp or {}
         n = skip_wrappers(n)
         def strip(x):
             x = skip_wrappers(x)
@@ -593,6 +615,8 @@ class Fn:
                 if b.get('kind') == 'MemberExpr' and b.get('name') in cfgm and \
                         (not b.get('inner') or strip(b['inner'][0]).get('kind') == 'CXXThisExpr'):
                     return cfgm[b['name']], c['name'], n['inner'][1:]
+                if b.get('kind') == 'DeclRefExpr' and b.get('referencedDecl', {}).get('name') in cfgp:   # C05
+                    return cfgp[b['referencedDecl']['name']], c['name'], n['inner'][1:]
         if n.get('kind') == 'CXXOperatorCallExpr' and len(n.get('inner', [])) == 3:
             try:
                 opn, _ = self.callee_name(n)
@@ -601,6 +625,8 @@ class Fn:
             b = strip(n['inner'][1])
             if opn == 'operator[]' and b.get('kind') == 'MemberExpr' and b.get('name') in cfgm:
                 return cfgm[b['name']], 'operator[]', n['inner'][2:]
+            if opn == 'operator[]' and b.get('kind') == 'DeclRefExpr' and b.get('referencedDecl', {}).get('name') in cfgp:   # C05
+                return cfgp[b['referencedDecl']['name']], 'operator[]', n['inner'][2:]
         return None
 
     def memobj_stmt(self, s0, rest):
@@ -610,6 +636,9 @@ class Fn:
             return rest()
         if meth == 'AddBackNogrow' and len(margs) == 1:
             v = self.e(margs[0]); self.note_write(arr); self.note_write(nn)
+            if mo.get('cap'):   # C05: the callee's MOMO_CHECK(GetCount() < GetCapacity())
+                self.nonsimple = True
+                return f'if Z.ltb {nn} {mo["cap"]} then (\nlet {arr} := upd {arr} {nn} {v} in\nlet {nn} := (wrapU 64 ({nn} + 1)) in\n{rest()})\nelse Stuck'
             return f'let {arr} := upd {arr} {nn} {v} in\nlet {nn} := (wrapU 64 ({nn} + 1)) in\n{rest()}'
         if meth == 'RemoveBack' and len(margs) <= 1:
             kx = self.e(margs[0]) if margs else '(1)'
@@ -633,6 +662,14 @@ class Fn:
             if opn0 == 'operator[]' and obj0.get('kind') == 'MemberExpr' and self.ctx.fields.get(obj0.get('name')) == 'array' \
                     and obj0.get('name') in self.env:
                 return '(%s %s)' % (obj0['name'], self.e(n['inner'][2]))
+        # C05: "functor_locals": {"less": "Z.ltb"}: `less(a, b)` where `std::less<T*> less;` is a (skipped) local functor object
+        fl_ = self.ctx.cfg.get('functor_locals')
+        if fl_ and len(n.get('inner', [])) >= 2:
+            ob_ = skip_wrappers(n['inner'][1])
+            while ob_.get('kind') == 'ImplicitCastExpr':
+                ob_ = skip_wrappers(ob_['inner'][0])
+            if ob_.get('kind') == 'DeclRefExpr' and ob_['referencedDecl']['name'] in fl_:
+                return '(' + ' '.join([fl_[ob_['referencedDecl']['name']]] + [self.e(a) for a in n['inner'][2:]]) + ')'
         # C06: "operator_prims": {"operator==": "it_eqb", ...}: an overloaded operator on opaque values is a configured Gallina function
         ops_ = self.ctx.cfg.get('operator_prims')
         if ops_:
@@ -768,6 +805,27 @@ class Fn:
             return self.e(inner)
         raise TranslationError('cast kind ' + str(ck))
 
+    def ptr_range(self, n):
+        """C02: a pointer expression `field + e1 + e2 ...` (field = configured array member, or a pointer local listed in
+        "pointer_locals") -> (field name, Gallina offset)"""
+        n = skip_wrappers(n)
+        while n['kind'] in ('ImplicitCastExpr', 'ParenExpr'):
+            n = skip_wrappers(n['inner'][0])
+        if n['kind'] == 'BinaryOperator' and n.get('opcode') == '+':
+            l, r = n['inner']
+            if ctype(skip_wrappers(l))[0] in ('ptr', 'arr') or ctype(l)[0] in ('ptr', 'arr'):
+                f, off = self.ptr_range(l)
+                return f, f'({off} + {self.e(r)})'
+            f, off = self.ptr_range(r)
+            return f, f'({off} + {self.e(l)})'
+        if n['kind'] == 'DeclRefExpr':
+            nm = n['referencedDecl']['name']
+            pl = self.ctx.cfg.get('pointer_locals', {}).get(self.name, {})
+            if nm in pl:
+                return pl[nm], '0'
+            raise TranslationError('pointer %s is not a configured pointer local' % nm)
+        return self.lv_base(n), '0'
+
     def lv_base(self, n):
         n = skip_wrappers(n)
         while n['kind'] in ('ImplicitCastExpr', 'ParenExpr'):
@@ -852,11 +910,39 @@ class Fn:
                     acc.add(self.lhs_name(n['inner'][1]))
             except TranslationError:
                 pass
+        if k == 'CXXMemberCallExpr' and self.ctx.cfg.get('atomic_mem'):   # C19: exchange / CAS write the memory array (and the expected local)
+            try:
+                am_ = self.atomic_mem_call(n)
+            except TranslationError:
+                am_ = None
+            if am_ is not None:
+                acc.add(am_[1])
+                if am_[0].startswith('compare_exchange'):
+                    acc.add(self.lhs_name(am_[3][0]))
+        if k == 'CXXOperatorCallExpr' and self.ctx.cfg.get('effect_assign', {}).get(self.name) and len(n.get('inner', [])) == 3:   # C20: effect_assign writes its field
+            try:
+                if self.callee_name(n)[0] == 'operator=':
+                    acc.add(self.ctx.cfg['effect_assign'][self.name]['field'])
+            except TranslationError:
+                pass
         if k in ('CXXMemberCallExpr', 'CallExpr') and self.ctx.cfg.get('effect_calls'):   # C06: an effect call writes its field
             try:
-                en_ = self.ctx.cfg['effect_calls'].get(self.callee_name(n)[0])
+                en_ = self.ctx.cfg['effect_calls'].get(self.callee_name(n)[0]) or self.ctx.cfg['effect_calls'].get('%s/%d' % (self.callee_name(n)[0], len(n['inner']) - 1))   # C20: "Name/argc" distinguishes same-named callees
                 if en_ is not None:
                     acc.add(en_[0])
+            except TranslationError:
+                pass
+        if k in ('CXXMemberCallExpr', 'CallExpr') and self.ctx.cfg.get('shift_calls'):   # C02: a shift primitive writes its item array
+            try:
+                sc2_ = self.ctx.cfg['shift_calls'].get(self.callee_name(n)[0])
+                if sc2_ is not None:
+                    acc.add(sc2_['field'])
+            except TranslationError:
+                pass
+        if k == 'CallExpr' and self.ctx.cfg.get('array_copy') and len(n.get('inner', [])) == 4:   # C02: std::copy / copy_backward writes its array field
+            try:
+                if self.callee_name(n)[0] in ('copy', 'copy_backward'):
+                    acc.add(self.ptr_range(n['inner'][3])[0])
             except TranslationError:
                 pass
         if k in ('CXXMemberCallExpr', 'CallExpr') and self.ctx.cfg.get('record_calls'):   # C07: a recorded call writes its pseudo fields
@@ -868,7 +954,15 @@ class Fn:
                 pass
         if k == 'UnaryOperator' and n.get('opcode') in ('++', '--'):
             tgt_ = skip_wrappers(n['inner'][0])
-            if not (self.ctx.cfg.get('assert_calls') and tgt_['kind'] in ('CXXMemberCallExpr', 'CallExpr')):   # C14: ++obj.Accessor() assigns no field
+            sc8_ = None
+            if self.ctx.cfg.get('scalar_calls') and tgt_['kind'] in ('CXXMemberCallExpr', 'CallExpr'):   # C08: ++obj.Accessor() writes the configured scalar pseudo-field
+                try:
+                    sc8_ = self.ctx.cfg['scalar_calls'].get(self.callee_name(tgt_)[0])
+                except TranslationError:
+                    sc8_ = None
+            if sc8_ is not None:
+                acc.add(sc8_)
+            elif not (self.ctx.cfg.get('assert_calls') and tgt_['kind'] in ('CXXMemberCallExpr', 'CallExpr')):   # C14: ++obj.Accessor() assigns no field
                 acc.add(self.lhs_name(n['inner'][0]))
         if self.ctx.cfg.get('swap_calls') and k in ('CallExpr', 'CXXMemberCallExpr'):   # C14: a swap writes both lvalues
             try:
@@ -883,6 +977,13 @@ class Fn:
             mo, meth, _a = self.memobj(n)
             if meth == 'AddBackNogrow': acc.update([mo['arr'], mo['n']])
             if meth in ('RemoveBack', 'Clear'): acc.add(mo['n'])
+        if k == 'CallExpr' and self.ctx.cfg.get('assign_calls'):   # C05
+            try:
+                anm, _ = self.callee_name(n)
+                if anm in self.ctx.cfg['assign_calls']:
+                    acc.add(self.lhs_name(n['inner'][-1]))
+            except TranslationError:
+                pass
         if k == 'CallExpr' and self.ctx.cfg.get('out_calls'):   # C16
             try:
                 onm, _ = self.callee_name(n)
@@ -906,6 +1007,8 @@ class Fn:
 
     def lhs_name(self, l):
         l = skip_wrappers(l)
+        if l['kind'] == 'CXXOperatorCallExpr' and self.memobj(l) is not None and self.memobj(l)[1] == 'operator[]':   # C05
+            return self.memobj(l)[0]['arr']
         if l['kind'] in ('CXXMemberCallExpr', 'CallExpr'):
             nm, _ = self.callee_name(l)
             if nm in self.ctx.accessors:
@@ -930,6 +1033,11 @@ class Fn:
         if not init:
             return None
         iv = skip_wrappers(init[0])
+        if iv.get('kind') == 'CXXOperatorCallExpr' and self.memobj(iv) is not None and self.memobj(iv)[1] == 'operator[]':   # C05
+            if not hasattr(self, 'alias_pre'):
+                self.alias_pre = {}
+            self.alias_pre[v['name']] = self.memobj(iv)[0]['arr']
+            return self.alias_pre[v['name']]
         if iv.get('kind') != 'ArraySubscriptExpr':
             raise TranslationError('reference local %s is not bound to an array element of a field' % v.get('name'))
         b = self.lv_base(iv['inner'][0])
@@ -942,12 +1050,20 @@ class Fn:
 
     def assign_to(self, lhs, val, k):
         lhs = skip_wrappers(lhs)
+        if lhs['kind'] == 'CXXOperatorCallExpr' and self.memobj(lhs) is not None and self.memobj(lhs)[1] == 'operator[]':   # C05
+            mo, _m, margs = self.memobj(lhs)
+            self.note_write(mo['arr'])
+            return f"let {mo['arr']} := upd {mo['arr']} {self.e(margs[0])} {val} in\n{k()}"
         if lhs['kind'] in ('CXXMemberCallExpr', 'CallExpr'):
             nm, _ = self.callee_name(lhs)
             if nm in self.ctx.accessors:
                 fld, idx = self.accessor_target(nm, lhs['inner'][1:])
                 self.note_write(fld)
                 return f'let {fld} := upd {fld} {idx} {val} in\n{k()}'
+            sc = self.ctx.cfg.get('scalar_calls', {}).get(nm)   # C08: `++mCrew.GetValueVersion();` - a reference-returning call that denotes a configured scalar pseudo-field
+            if sc is not None and sc in self.ctx.fields:
+                self.note_write(sc)
+                return f'let {sc} := {val} in\n{k()}'
         if lhs['kind'] == 'ArraySubscriptExpr':
             b = self.lv_base(lhs['inner'][0]); i = self.e(lhs['inner'][1])
             self.note_write(b)
@@ -1023,11 +1139,13 @@ class Fn:
             if self.name in self.ctx.cfg.get('ignore_return', []):   # C12: returned iterator/pointer is not modelled
                 return jc['ret']('true' if getattr(self, 'fails_mode', False) else 'tt')   # C04: completed flag
             if s.get('inner'):
+                if self.ret_ct[0] == 'void':   # C20: `return f(x);` in a void function is `f(x); return;`
+                    return self.expr_stmt(s['inner'][0], lambda: jc['ret']('tt'))
                 return self.ret_stmt(s['inner'][0], jc)
             return jc['ret']('tt')
         if kind == 'GallinaReturn':   # C09: synthetic return of a "prefix" translation
             for nm in re.findall(r'\w+', s['text']):
-                if nm not in self.env and nm != 'tt': raise TranslationError('prefix return: %s is not in scope' % nm)   # C05: empty tuple
+                if nm not in self.env and nm != 'tt' and not (s['text'] in ('true', 'false')): raise TranslationError('prefix return: %s is not in scope' % nm)   # C05: empty tuple; C02: literal bool
             return jc['ret'](s['text'])
         if kind == 'BreakStmt':
             if not jc.get('brk'): raise TranslationError('break outside loop')
@@ -1074,6 +1192,8 @@ class Fn:
             v = vs[i]; nm = v['name']
             if nm in self.ctx.cfg.get('skip_locals', {}).get(self.name, []):   # C16: e.g. `MemManager& memManager = GetMemManager();` (a later use is an error)
                 return go(i + 1)
+            if nm in self.ctx.cfg.get('pointer_locals', {}).get(self.name, {}):   # C02: `Node** children = pvGetChildren();` = a view of a configured (virtual) array field, usable only in array_copy ranges
+                return go(i + 1)
             if nm in self.env and nm not in self.opaque:
                 raise TranslationError(f'shadowing/redeclaration of {nm} in {self.name}')
             if self.ctx.cfg.get('object_fields'):   # C14: `MemManager memManager(std::move(static_cast<MemManager&>(*this)));`
@@ -1110,17 +1230,52 @@ class Fn:
             if nm not in self.opaque and self.ref_alias_base(v):   # C12: `uint8_t& r = field[idx];` (non-const reference to an element)
                 b = self.alias_pre[nm]; ixn = nm + '_idx'
                 if not hasattr(self, 'aliases'): self.aliases = {}
-                ixv = self.e(iv['inner'][1])
+                ixv = self.e(self.memobj(iv)[2][0]) if iv.get('kind') == 'CXXOperatorCallExpr' else self.e(iv['inner'][1])   # C05: array[i] of a modelled object
                 self.aliases[nm] = (b, ixn); self.env[nm] = ct
                 return f'let {ixn} := {ixv} in\n{go(i+1)}'
             # call to non-simple function as initialiser
             if iv['kind'] in ('CXXMemberCallExpr', 'CallExpr') and self.is_nonsimple_call(iv):
                 self.env[nm] = ct
                 return self.bind_call(iv, nm, lambda: go(i + 1))
+            am_ = self.atomic_mem_call(iv)
+            if am_ is not None and am_[0] == 'exchange':
+                # C19 ("atomic_mem": {"array": "mem"}): `T x = obj.exchange(v);` on a std::atomic whose cell lives in the configured
+                # memory array: x := mem[addr(obj)]; mem[addr(obj)] := v   (sequential reading of the atomic read-modify-write)
+                _, arr_, addr_, args_ = am_
+                self.note_write(arr_); self.env[nm] = ct
+                return f'let {nm} := ({arr_} {addr_}) in\nlet {arr_} := upd {arr_} {addr_} {self.e(args_[0])} in\n{go(i+1)}'
             val = self.e(init[0])
             self.env[nm] = ct
             return f'let {nm} := {val} in\n{go(i+1)}'
         return go(0)
+
+    def atomic_mem_call(self, n):
+        """C19: (method, array, address text, argument nodes) when n is `obj.exchange(..)` / `obj.compare_exchange_weak|strong(..)` on an
+        object whose address is translatable (`*ptr`, `ptr->`, or a call mapped by "primitives") and "atomic_mem" is configured"""
+        cfg_ = self.ctx.cfg.get('atomic_mem')
+        if not cfg_:
+            return None
+        n = skip_wrappers(n)
+        while n.get('kind') == 'ImplicitCastExpr':
+            n = skip_wrappers(n['inner'][0])
+        if n.get('kind') != 'CXXMemberCallExpr':
+            return None
+        c = skip_wrappers(n['inner'][0])
+        if c.get('kind') != 'MemberExpr' or c.get('name') not in ('exchange', 'compare_exchange_weak', 'compare_exchange_strong'):
+            return None
+        args = [a for a in n['inner'][1:] if a.get('kind') != 'CXXDefaultArgExpr']
+        if len(args) != (1 if c['name'] == 'exchange' else 2):
+            raise TranslationError('atomic %s with an explicit memory order is not modelled' % c['name'])
+        obj = skip_wrappers(c['inner'][0])
+        while obj.get('kind') == 'ImplicitCastExpr':
+            obj = skip_wrappers(obj['inner'][0])
+        if c.get('isArrow'):
+            addr = self.e(obj)
+        elif obj.get('kind') == 'UnaryOperator' and obj.get('opcode') == '*':
+            addr = self.e(obj['inner'][0])
+        else:
+            addr = self.e(obj)
+        return (c['name'], cfg_['array'], addr, args)
 
     def static_table(self, v):
         nm = v['name']
@@ -1292,12 +1447,26 @@ class Fn:
                     return f'let {g_} := {v_} in\n{rest()}'
                 if fname and self.functors.get(fname) == 'fails':   # C04: the functor throws here, or the function goes on
                     return f"if {fname}_fails then RETURN[false] else (\n{rest()})"
+                ea_ = self.ctx.cfg.get('effect_assign', {}).get(self.name)
+                if nm == 'operator=' and ea_ is not None and len(s0['inner']) == 3:
+                    # C20: "effect_assign": {"<fn>": {"field": f, "fn": g, "args": [locals]}}: an assignment of a freshly constructed class
+                    # object (`*mMemPool = MemPool(memPoolParams, ...)`) is modelled as f := g f locals; every listed local must occur in the rhs
+                    txt_ = json.dumps(s0['inner'][2])
+                    for a_ in ea_['args']:
+                        if ('"name": "%s"' % a_) not in txt_ or a_ not in self.env:
+                            raise TranslationError('effect_assign: %s does not occur in the assigned expression' % a_)
+                    if ea_['field'] not in self.ctx.fields:
+                        raise TranslationError('effect_assign: %s is not a configured field' % ea_['field'])
+                    self.note_write(ea_['field'])
+                    return f"let {ea_['field']} := (" + ' '.join([ea_['fn'], ea_['field']] + ea_['args']) + f') in\n{rest()}'
                 if nm == 'operator=' and self.ctx.cfg.get('opaque_types') and len(s0['inner']) == 3:   # C06: assignment between opaque (class-type) values
                     return self.assign_to(s0['inner'][1], self.e(s0['inner'][2]), rest)
                 raise TranslationError('operator call statement')
             if nm in self.functors and self.functors[nm] == 'skip':
                 return rest()
-            eff_ = self.ctx.cfg.get('effect_calls', {}).get(nm)
+            if nm in self.ctx.cfg.get('assign_calls', []) and len(s0['inner']) >= 3:   # C05: ItemTraits::Assign(memManager, src, dst)  =  dst = src
+                return self.assign_to(s0['inner'][-1], self.e(s0['inner'][-2]), rest)
+            eff_ = self.ctx.cfg.get('effect_calls', {}).get(nm) or self.ctx.cfg.get('effect_calls', {}).get('%s/%d' % (nm, len(s0['inner']) - 1))   # C20: "Name/argc"
             if eff_ is not None:   # C06: "effect_calls": {"clear": ["st", "ev_clear"]}: a call statement whose effect is field := fn field args
                 fld_, fn_ = eff_
                 if fld_ not in self.ctx.fields:
@@ -1321,6 +1490,53 @@ class Fn:
                     self.note_write(fld_)
                     out_ += f'let {fld_} := ({self.e(args_[ix_])}) in\n'
                 return out_ + rest()
+            if nm in ('copy', 'copy_backward') and k == 'CallExpr' and len(s0['inner']) == 4 and self.ctx.cfg.get('array_copy'):
+                # C02: std::copy(f + a, f + b, f + d) / std::copy_backward(f + a, f + b, f + dLast) inside ONE configured array field
+                # (or a pointer local declared in "pointer_locals" as a view of such a field): a range copy is a function update
+                # on [d, d + (b - a)) reading the OLD contents (the standard's no-overlap preconditions: d not in [a, b) for copy,
+                # dLast not in (a, b] for copy_backward, are the caller's obligation and are stated in the generated comment).
+                (f1, a_), (f2, b_), (f3, d_) = [self.ptr_range(x) for x in s0['inner'][1:4]]
+                if not (f1 == f2 == f3):
+                    raise TranslationError('%s between different arrays (%s, %s, %s)' % (nm, f1, f2, f3))
+                if self.ctx.fields.get(f1) != 'array':
+                    raise TranslationError('%s on %s which is not a configured array field' % (nm, f1))
+                self.note_write(f1)
+                dst = 'cp_d_' if nm == 'copy' else '(cp_d_ - cp_n_)'
+                return (f'(* std::{nm} on {f1}: parallel range copy *)\nlet {f1} := (let cp_a_ := {a_} in let cp_n_ := ({b_}) - cp_a_ in let cp_d_ := {d_} in '
+                        f'let cp_o_ := {dst} in fun j_ => if andb (Z.leb cp_o_ j_) (Z.ltb j_ (cp_o_ + cp_n_)) then {f1} (j_ - cp_o_ + cp_a_) else {f1} j_) in\n{rest()}')
+            sc_ = self.ctx.cfg.get('shift_calls', {}).get(nm)
+            if sc_ is not None and len(s0['inner']) == 4:
+                # C02: ItemTraits::ShiftNothrow(memManager, begin, shift) on the item array of the SAME node, begin = GetItemPtr(p)
+                # (forward) or std::reverse_iterator<Item*>(GetItemPtr(q)) (backward from q-1).  ASSUMED semantics of the primitive
+                # (ObjectManager::ShiftNothrow, property C03): the item at `begin` ends up `shift` places further and the items in
+                # between move one place towards `begin`.  "shift_calls": {"ShiftNothrow": {"field": "items_arr", "item_ptr": "GetItemPtr"}}
+                fld_ = sc_['field']
+                if self.ctx.fields.get(fld_) != 'array':
+                    raise TranslationError('shift_calls: %s is not a configured array field' % fld_)
+                def find_ip(x):
+                    x = skip_wrappers(x)
+                    if x.get('kind') in ('CXXMemberCallExpr', 'CallExpr'):
+                        try:
+                            if self.callee_name(x)[0] == sc_['item_ptr']:
+                                return x
+                        except TranslationError:
+                            pass
+                    for y in x.get('inner', []):
+                        r_ = find_ip(y)
+                        if r_ is not None:
+                            return r_
+                    return None
+                bn_ = s0['inner'][2]; ip_ = find_ip(bn_)
+                if ip_ is None:
+                    raise TranslationError('shift_calls: begin is not built from %s(...)' % sc_['item_ptr'])
+                rev_ = 'reverse_iterator' in json.dumps(bn_.get('type', {})) or 'reverse_iterator' in json.dumps(skip_wrappers(bn_).get('type', {}))
+                pos_ = self.e(ip_['inner'][1]); sh_ = self.e(s0['inner'][3])
+                self.note_write(fld_)
+                if rev_:
+                    return (f'(* ShiftNothrow, backward from GetItemPtr({pos_}) - 1 *)\nlet {fld_} := (let sh_p_ := ({pos_}) - 1 in let sh_n_ := {sh_} in fun j_ => '
+                            f'if andb (Z.ltb (sh_p_ - sh_n_) j_) (Z.leb j_ sh_p_) then {fld_} (j_ - 1) else if Z.eqb j_ (sh_p_ - sh_n_) then {fld_} sh_p_ else {fld_} j_) in\n{rest()}')
+                return (f'(* ShiftNothrow, forward from GetItemPtr({pos_}) *)\nlet {fld_} := (let sh_p_ := {pos_} in let sh_n_ := {sh_} in fun j_ => '
+                        f'if andb (Z.leb sh_p_ j_) (Z.ltb j_ (sh_p_ + sh_n_)) then {fld_} (j_ + 1) else if Z.eqb j_ (sh_p_ + sh_n_) then {fld_} sh_p_ else {fld_} j_) in\n{rest()}')
             if nm == 'fill_n' and k == 'CallExpr' and len(s0['inner']) == 4:
                 # C12: std::fill_n(field, n, v) on a configured array field
                 b = self.lv_base(s0['inner'][1])
@@ -1379,7 +1595,20 @@ class Fn:
         cnd = inner[0]; th = inner[1]; el = inner[2] if len(inner) > 2 else None
         if s.get('hasVar') or s.get('hasInit'):
             raise TranslationError('if with init/var')
-        c = self.e(cnd)
+        am_ = self.atomic_mem_call(cnd)
+        if am_ is not None and am_[0].startswith('compare_exchange'):
+            # C19: `if (obj.compare_exchange_weak(expected, desired)) ...` (sequential reading; a spurious failure of the weak form is the
+            # section variable cas_spurious): ok := mem[a] == expected && !spurious; mem[a] := ok ? desired : mem[a]; expected := ok ? expected : mem[a]
+            _, arr_, addr_, args_ = am_
+            exp_ = self.lhs_name(args_[0]); des_ = self.e(args_[1])
+            if exp_ not in self.env: raise TranslationError('CAS expected argument %s is not a local in scope' % exp_)
+            self.note_write(arr_); self.note_write(exp_)
+            sp_ = self.ctx.cfg['atomic_mem'].get('spurious')
+            okx_ = f'Z.eqb ({arr_} {addr_}) {exp_}' + (f' && negb {sp_}' if sp_ and am_[0].endswith('weak') else '')
+            syn_ = dict(s); syn_['inner'] = [{'kind': 'C19CasOk'}] + list(inner[1:])
+            return (f'let cas_ok_ := ({okx_}) in\nlet {exp_} := (if cas_ok_ then {exp_} else ({arr_} {addr_})) in\n'
+                    f'let {arr_} := (if cas_ok_ then upd {arr_} {addr_} {des_} else {arr_}) in\n' + self.if_stmt(syn_, rest, jc))
+        c = 'cas_ok_' if cnd.get('kind') == 'C19CasOk' else self.e(cnd)
         if not self.has_jump(th) and not (el and self.has_jump(el)):
             # join form: no duplication of the continuation
             vs = sorted(self.assigned(s, set(), set()) & set(self.env.keys()))
@@ -1455,8 +1684,11 @@ class Fn:
         k = n.get('kind')
         if k in ('CXXMemberCallExpr', 'CXXOperatorCallExpr') and self.memobj(n) is not None:   # C16
             mo = self.memobj(n)[0]; acc.update([mo['n'], mo['arr']])
+            if mo.get('cap'): acc.add(mo['cap'])   # C05
         if k == 'DeclRefExpr':
             acc.add(n['referencedDecl']['name'])
+            if n['referencedDecl']['name'] in getattr(self, 'refp', {}):   # C05 ref_params: the element index and the array are loop context
+                acc.update(self.refp[n['referencedDecl']['name']])
         if k == 'MemberExpr':
             if n.get('name') in self.ctx.cfg.get('address_of', []):   # C12: &member inside a loop body: the opaque address is loop context
                 acc.add('addr_' + n['name'])
@@ -1470,6 +1702,13 @@ class Fn:
                 fi = self.ctx.fninfo.get(nm)
                 if fi is not None and not fi.is_static:
                     acc.update(fi.fieldnames)
+                if self.ctx.cfg.get('atomic_mem'):   # C19: a primitive whose Gallina text names a configured (pseudo) field reads that field
+                    pr_ = self.ctx.cfg.get('primitives', {}).get(nm)
+                    if pr_:
+                        acc.update(w_ for w_ in pr_.split() if w_ in self.ctx.fields)
+                    am_ = self.atomic_mem_call(n)
+                    if am_ is not None:
+                        acc.add(am_[1])
             except TranslationError:
                 pass
         for c in n.get('inner', []):
@@ -1486,6 +1725,13 @@ class Fn:
             if _cv and _cv != {}:
                 raise TranslationError('for with condition variable')
         pre_env = dict(self.env)
+        if init and init != {} and init.get('kind') == 'DeclStmt' and self.ctx.cfg.get('scoped_for_init'):   # C05: `for (size_t i = ...)` twice in one function:
+            names_ = [v['name'] for v in init.get('inner', []) if v.get('kind') == 'VarDecl']                  # the variable leaves the scope after the loop
+            rest0_ = rest
+            def rest():
+                for nmx in names_:
+                    self.env.pop(nmx, None)
+                return rest0_()
         def after_init():
             idx = len(self.loops); lname = f'{self.out}_loop{idx}'
             self.loops.append(None)
@@ -1551,7 +1797,7 @@ class Fn:
                 cut = [int(pf['until_stmt'])] if int(pf['until_stmt']) <= len(body.get('inner', [])) else []
             if not cut:
                 raise TranslationError('prefix: no declaration of %s in %s' % (pf['until'], self.name))
-            ret_node = {'kind': 'GallinaReturn', 'text': self.tup(list(pf['return']))}
+            ret_node = {'kind': 'GallinaReturn', 'text': pf['return_text'] if pf.get('return_text') in ('true', 'false') else self.tup(list(pf['return']))}   # C02: "return_text": "true" - the cut-off tail of a bool function always returns true
             body = dict(body, inner=body['inner'][:cut[0]] + [ret_node])
         # C12: "address_of" members mentioned in the body become opaque parameters up front (so that loops can carry them)
         for am in self.ctx.cfg.get('address_of', []):
@@ -1707,7 +1953,7 @@ def find_spec(objs, cfg):
 def method_decls(spec, name):
     out = []
     for m in spec.get('inner', []):
-        if m.get('kind') in ('CXXMethodDecl', 'CXXConstructorDecl') and m.get('name') == name and \
+        if m.get('kind') in ('CXXMethodDecl', 'CXXConstructorDecl', 'CXXDestructorDecl') and m.get('name') == name and \
                 any(y.get('kind') == 'CompoundStmt' for y in m.get('inner', [])):
             out.append(m)
         if m.get('kind') == 'FunctionTemplateDecl' and m.get('name') == name:
@@ -1831,6 +2077,14 @@ def translate_group(cfg, ast_text=None, repo='/repo'):
         ctx.fninfo_id[ds[idx].get('id')] = f
         ctx.overloads[name] = len(ds)
         bodies.append(txt)
+    # C18: "emit_consts": ["maxCodeParam", ...] -- static const members of the specialization that no translated function
+    # mentions but that the hand model / theorems must take from the source (emitted like any referenced constant)
+    for cn in cfg.get('emit_consts', []):
+        d = ctx.static_decls.get(cn)
+        if d is None:
+            raise TranslationError('emit_consts: no static constant %s in specialization %s' % (cn, cfg['class']))
+        tmp = Fn.__new__(Fn); tmp.ctx = ctx; tmp.env = {}; tmp.name = '<emit %s>' % cn
+        tmp.static_const(cn, d)
     out = ['(* GENERATED by tools/cxx2coq.py from %s (class %s) -- do not edit *)' % (os.path.basename(cfg['tu']), cfg['class']),
            PRELUDE_IMPORT + ''.join(l + '\n' for l in cfg.get('imports', []))]   # C16: "imports": extra Require lines
     sym = [c for c in ctx.const_order if ctx.consts[c][1] is None]
